@@ -320,11 +320,29 @@ def _replay_chunk(job):
     emb, pool = EMBS[embname], POOLS[poolname]
     out = []
     for i, v in enumerate(vecs):
-        ev, _ = run_vector(v, emb, pool, start + i)
+        try:
+            ev, _ = run_vector(v, emb, pool, start + i)
+        except common.MachineryError:
+            raise
+        except Exception as ex:  # noqa - building the inputs or reading back the results failed: the code under test misbehaves
+            ev = broken_event(start + i, v, ex)
         if "features" in v:
             ev["features"] = v["features"]
         out.append(ev)
     return out
+
+
+def broken_event(eid, vec, ex):
+    import traceback
+    return {"id": eid, "broken": True, "op": vec.get("op"), "args": vec.get("args"), "pre": vec.get("pre"),
+            "error": "%s: %s" % (type(ex).__name__, ex), "where": traceback.format_exc().splitlines()[-3:]}
+
+
+def split_broken(events):
+    """events the harness could not even set up or read back (never happens on a tree where the API behaves)"""
+    good = [e for e in events if not e.get("broken")]
+    bad = [e for e in events if e.get("broken")]
+    return good, bad
 
 
 def replay(vectors, plans, start_id=0):
